@@ -247,6 +247,20 @@ let print_sv (s : (n * n) list) : string =
   let l = List.sort compare (List.map (fun (c, k) -> (String.length (hex_of_n c), hex_of_n c, hex_of_n k)) s) in
   match l with [] -> "_" | _ -> String.concat "," (List.map (fun (_, c, k) -> c ^ ":" ^ k) l)
 
+let print_aw (l : (n * (n * n list)) list) : string =
+  let es = List.sort compare (List.map (fun (c, (k, j)) -> (String.length (hex_of_n c), hex_of_n c, hex_of_n k, rawhex j)) l) in
+  "[" ^ String.concat "," (List.map (fun (_, c, k, j) -> c ^ ":" ^ k ^ ":" ^ j) es) ^ "]"
+let print_message (m : message) : string =
+  match m with
+  | MSync (SyncStep1 v) -> "sync1 " ^ print_sv v
+  | MSync (SyncStep2 u) -> "sync2 " ^ rawhex u
+  | MSync (SyncUpdate u) -> "update " ^ rawhex u
+  | MAuth None -> "auth granted"
+  | MAuth (Some r) -> "auth denied " ^ rawhex r
+  | MAwarenessQuery -> "awq"
+  | MAwareness a -> "aw " ^ print_aw a
+  | MCustom (t, d) -> "custom " ^ hex_of_n t ^ " " ^ rawhex d
+
 (* ---------- document dump ---------- *)
 let print_seqkey ((p, sub) : (parent * n list option)) : string =
   print_parent p ^ (match sub with Some k -> "/" ^ rawhex k | None -> "")
@@ -300,6 +314,23 @@ let cmd_dec (args : string list) : string =
   | ["snapshot"; hx] -> let bs = bytes_of_hex hx in pres (fun (ds, s) -> print_idset ds ^ "@" ^ print_sv s) (decode_snapshot_v1 (fuel_for bs) bs)
   | ["update"; hx] -> let bs = bytes_of_hex hx in pres print_update (decode_update_v1 (fuel_for bs) bs)
   (* decode then re-encode with the model's encoder (clients in the order given on the wire) *)
+  | ["sticky"; hx] -> pres (fun (sc, a) -> print_scope sc ^ (if a then "a" else "b")) (decode_sticky (bytes_of_hex hx))
+  | ["reenc_sticky"; hx] ->
+    (match decode_sticky (bytes_of_hex hx) with
+     | Ok (x, _) -> "ok " ^ hex_of_bytes (encode_sticky x)
+     | Err e -> "err " ^ err_name e | Panic s -> "panic " ^ hex_of_n s | Fuel -> "fuel")
+  | ["awareness"; hx] -> let bs = bytes_of_hex hx in pres print_aw (decode_awareness (fuel_for bs) bs)
+  | ["reenc_awareness"; hx] ->
+    let bs = bytes_of_hex hx in
+    (match decode_awareness (fuel_for bs) bs with
+     | Ok (x, _) -> "ok " ^ hex_of_bytes (encode_awareness x)
+     | Err e -> "err " ^ err_name e | Panic s -> "panic " ^ hex_of_n s | Fuel -> "fuel")
+  | ["message"; hx] -> let bs = bytes_of_hex hx in pres print_message (decode_message (fuel_for bs) bs)
+  | ["reenc_message"; hx] ->
+    let bs = bytes_of_hex hx in
+    (match decode_message (fuel_for bs) bs with
+     | Ok (x, _) -> "ok " ^ hex_of_bytes (encode_message x)
+     | Err e -> "err " ^ err_name e | Panic s -> "panic " ^ hex_of_n s | Fuel -> "fuel")
   | ["reenc_update"; hx] ->
     let bs = bytes_of_hex hx in
     (match decode_update_v1 (fuel_for bs) bs with
@@ -330,10 +361,30 @@ let cmd_enc (args : string list) : string =
   | ["buf"; hx] -> "ok " ^ hex_of_bytes (write_buf (bytes_of_hex hx))
   | _ -> "err badcmd"
 
+(* ---------- awareness ---------- *)
+let aws : (string, (n * (n * (n * n list option)) list)) Hashtbl.t = Hashtbl.create 8   (* name -> (local, state) *)
+let parse_aw_entries (s : string) : (n * (n * n list option)) list =
+  if s = "_" then [] else
+    List.map (fun t -> match String.split_on_char ':' t with
+        | [c; k; j] -> (n_of_hex c, (n_of_hex k, if j = "null" then None else Some (bytes_of_hex (if j = "" then "_" else j))))
+        | _ -> failwith "bad aw entry") (split_on ',' s)
+let print_aw_state (st : (n * (n * n list option)) list) : string =
+  let es = List.sort compare (List.map (fun (c, (k, d)) -> (String.length (hex_of_n c), hex_of_n c, hex_of_n k, (match d with None -> "null" | Some j -> rawhex j))) st) in
+  match es with [] -> "_" | _ -> String.concat "," (List.map (fun (_, c, k, j) -> c ^ ":" ^ k ^ ":" ^ j) es)
+let cmd_aw (args : string list) : string =
+  match args with
+  | ["new"; r; local] -> Hashtbl.replace aws r (n_of_hex local, []); "ok"
+  | ["apply"; r; u] -> let (l, st) = Hashtbl.find aws r in Hashtbl.replace aws r (l, apply_update l st (parse_aw_entries u)); "ok"
+  | ["set"; r; j] -> let (l, st) = Hashtbl.find aws r in Hashtbl.replace aws r (l, set_local l st (bytes_of_hex j)); "ok"
+  | ["remove"; r; c] -> let (l, st) = Hashtbl.find aws r in Hashtbl.replace aws r (l, remove_state st (n_of_hex c)); "ok"
+  | ["dump"; r] -> let (_, st) = Hashtbl.find aws r in "ok " ^ print_aw_state st
+  | _ -> "err badcmd"
+
 let dispatch (line : string) : string =
   match String.split_on_char ' ' (String.trim line) with
   | "R" :: args -> cmd_ranges args
   | "D" :: args -> cmd_doc args
+  | "A" :: args -> cmd_aw args
   | "DEC" :: args -> cmd_dec args
   | "ENC" :: args -> cmd_enc args
   | ["PING"] -> "ok pong"
